@@ -56,13 +56,18 @@ def impl_main():
         enums, dicts = [], []
         for m, form in zip(c["init"], c["forms"]):
             d = dict((k, mkval(v)) for k, v in m)
-            enums.append(Enum(d) if form == "dict" else Enum(**d))
+            try:
+                enums.append(Enum(d) if form == "dict" else Enum(**d))
+            except Exception as e:  # noqa — a mapping the documented forms accept was refused: every later use of it is reported
+                enums.append(type(e).__name__)
             dicts.append(dict(d))
         res, spec = [], []
         for which, op in c["ops"]:
             E, D = enums[which], dicts[which]
             kind = op[0]
             try:
+                if isinstance(E, str):
+                    raise RuntimeError("construction raised " + E)
                 if kind == "add":
                     E.add(op[1], mkval(op[2])); r = ["unit"]
                 elif kind == "remove":
